@@ -249,7 +249,53 @@ def isolate(p):
     return mk('isolate', sig, pre, body)
 
 
-FAMILIES = {'isolate': isolate}
+def isolate_many(p):
+    """K keys live at once (K crosses growth steps / cache capacities): the FIRST item of key 0 may fail (symbolic), then every other key gets one item,
+    then key 0 and the last key get further items, one of which may fail; with ignore / router every key's outputs are those of the run without the failing items"""
+    K, handler, seedkind = p['k'], p['handler'], p['seed']
+
+    def body(a):
+        v0, v1, v2 = a
+        items = [(0, v0)] + [(k, 3 * k + 1) for k in range(1, K)] + [(0, v1), (K - 1, v2), (0, 5)]
+        dead = []
+        if handler == 'router':
+            errors, route = rs.error.create_error_router()
+            errors.subscribe(on_next=lambda e: dead.append(e.args[0] if isinstance(e, Bad) else repr(e)))
+            h = [route()]
+        else:
+            h = [rs.error.ignore()]
+
+        def f(i):
+            if bad(i):
+                raise Bad(i)
+            return i + 1
+        if seedkind == 'int':
+            tail = [rs.ops.scan(lambda acc, i: acc + i, seed=1000)]
+        else:
+            tail = [rs.ops.scan(lambda acc, i: acc + (i,), seed=())]
+        log = []
+        inner = [rs.ops.map(lambda i: i[1]), rs.ops.map(f)] + h + tail + [D.tap(log)]
+        err = []
+        quiet(lambda: D.src(items).pipe(rs.state.with_memory_store([rs.ops.group_by(lambda i: i[0], inner)])).subscribe(on_error=lambda e: err.append(repr(e))))
+        outs, ok = D.lifetimes(log)
+        if err or not ok or len(outs) != K:
+            return fail(keys=K, err=err, wellformed=ok, seen=len(outs))
+        for k in (0, 1, K // 2, K - 1):
+            good = [v + 1 for kk, v in items if kk == k and not bad(v)]
+            exp = []
+            acc = 1000 if seedkind == 'int' else ()
+            for g in good:
+                acc = acc + g if seedkind == 'int' else acc + (g,)
+                exp.append(acc)
+            if outs[k] != exp:
+                return fail(keys=K, key=k, items_of_key=[v for kk, v in items if kk == k], observed=outs[k], expected=exp)
+        if handler == 'router' and dead != [v for _, v in items if bad(v)]:
+            return fail(keys=K, dead=dead)
+        return True
+    return mk('isolate_many', [('v0', 'int'), ('v1', 'int'), ('v2', 'int')], ['-2**40 <= v%d <= 2**40' % i for i in range(3)], body)
+
+
+FAMILIES = {'isolate': isolate, 'isolate_many': isolate_many}
 
 
 def obligations(tier, seed):
@@ -275,5 +321,9 @@ def obligations(tier, seed):
             obs.append(Ob(PROP, 'isolate', dict(op=op, handler='none', tail=tail, ctx='pre_group', n=3 if q else 4), budget=b, group='pre_group', bound=dict(items=3 if q else 4, ctx='failing operator before a group_by, no handler')))
             for handler in ('ignore', 'router'):
                 obs.append(Ob(PROP, 'isolate', dict(op=op, handler=handler, tail=tail, ctx='group_outer', n=3), budget=b, group='group_outer', bound=dict(items=3, groups=2, ctx='handler after the group_by')))
+    for k in ((9, 17, 34) if q else (9, 10, 17, 33, 34, 65, 129)):
+        for handler in ('ignore', 'router'):
+            for seedkind in ('int', 'tuple'):
+                obs.append(Ob(PROP, 'isolate_many', dict(k=k, handler=handler, seed=seedkind), budget=b, group='many live keys', bound=dict(live_keys=k, handler=handler, downstream='scan with %s seed' % seedkind)))
     obs.append(Ob(PROP, 'isolate', dict(op='map', handler='router', tail='scan', ctx='group', n=3, _twin='reach'), budget=60, expect='refute'))
     return obs
